@@ -209,6 +209,28 @@ func genScript(r *rand.Rand, kind string) []Op {
 			}
 		}
 		s = append(s, Op{Op: "adv", Dt: 10})
+	case "far": // deadlines hours away, large clock steps: nothing may be reported before its deadline however long the wait
+		k := 2 + r.Intn(5)
+		var slots []int
+		for i := 0; i < k; i++ {
+			sl := 1800*(1+r.Intn(8)) + r.Intn(5)
+			slots = append(slots, sl)
+			s = append(s, Op{Op: "add", D: sl*4 + r.Intn(3)})
+		}
+		for i := 0; i < 4+r.Intn(6); i++ {
+			switch r.Intn(4) {
+			case 0:
+				s = append(s, Op{Op: "adv", Dt: 3600})
+			case 1:
+				s = append(s, Op{Op: "adv", Dt: 600 + r.Intn(3000)})
+			case 2:
+				sl := slots[r.Intn(len(slots))]
+				s = append(s, Op{Op: "add", D: sl*4 + r.Intn(3)}) // re-add (pending, or already reported)
+			default:
+				s = append(s, Op{Op: "read", N: 1 + r.Intn(4)})
+			}
+		}
+		s = append(s, Op{Op: "adv", Dt: 20000})
 	case "burst": // many duties with one deadline, consumer reads late: exercises the full queue
 		k := 8 + r.Intn(20)
 		slot := 1 + r.Intn(3)
@@ -287,6 +309,8 @@ func TestGen(t *testing.T) {
 			kind = "edge"
 		case x == 3:
 			kind = "race"
+		case x == 4:
+			kind = "far"
 		}
 		hs = append(hs, History{ID: len(hs), Kind: kind, Script: genScript(r, kind)})
 	}
